@@ -2,6 +2,7 @@
 from __future__ import annotations
 import ast
 import z3
+from .qa import ForAll as QForAll
 from . import ty
 from .ty import T, INT, REAL, BOOL, STR, NONE
 from .prelude import seq_ops
@@ -110,7 +111,7 @@ def not_in_modset(entries, r):
             conj.append(r != e[1])
         else:
             _q, xs, guard, ref = e
-            conj.append(z3.ForAll(list(xs), z3.Implies(guard, r != ref)))
+            conj.append(QForAll(list(xs), z3.Implies(guard, r != ref)))
     return z3.And(*conj) if conj else z3.BoolVal(True)
 
 
@@ -141,7 +142,7 @@ def havoc_modset(E: Engine, st: State, ms: dict, pre: State, allocates=False):
         st.note_write(key, None)
         if not any(e[0] == "all" for e in entries):
             r = fresh("r", ty.RefSort)
-            st.assume(z3.ForAll([r], z3.Implies(not_in_modset(entries, r), z3.Select(new, r) == z3.Select(old, r)),
+            st.assume(QForAll([r], z3.Implies(not_in_modset(entries, r), z3.Select(new, r) == z3.Select(old, r)),
                                 patterns=[z3.Select(new, r)]))
     if allocates:
         olda = E.alloc(st)
@@ -149,7 +150,8 @@ def havoc_modset(E: Engine, st: State, ms: dict, pre: State, allocates=False):
         st.heap[("alloc",)] = newa
         st.note_write(("alloc",), None)
         r = fresh("r", ty.RefSort)
-        st.assume(z3.ForAll([r], z3.Implies(z3.Select(olda, r), z3.Select(newa, r)), patterns=[z3.Select(olda, r)]))
+        st.assume(QForAll([r], z3.Implies(z3.Select(olda, r), z3.Select(newa, r)), patterns=[z3.Select(olda, r)]))
+        E.alloc_from_initial(st)
 
 
 def wf_value(E: Engine, st: State, key, val):
@@ -160,7 +162,7 @@ def wf_value(E: Engine, st: State, key, val):
     if key[0] in ("list", "dk") and ty.is_reflike(key[1]):
         so = seq_ops(key[1])
         x = fresh("x", ty.RefSort)
-        st.assume(z3.ForAll([x], z3.Implies(so.Mem(val, x), z3.And(x != ty.null, z3.Select(al, x))), patterns=[so.Mem(val, x)]))
+        st.assume(QForAll([x], z3.Implies(so.Mem(val, x), z3.And(x != ty.null, z3.Select(al, x))), patterns=[so.Mem(val, x)]))
 
 
 def wf_keys(E: Engine, st: State, keys):
@@ -172,13 +174,13 @@ def wf_keys(E: Engine, st: State, keys):
             continue   # object-precise havoc: handled cell by cell (wf_value)
         if key[0] == "fld" and ty.is_reflike(key[3]):
             r = fresh("r", ty.RefSort)
-            st.assume(z3.ForAll([r], z3.Implies(z3.Select(al, r), z3.Or(z3.Select(arr, r) == ty.null, z3.Select(al, z3.Select(arr, r)))),
+            st.assume(QForAll([r], z3.Implies(z3.Select(al, r), z3.Or(z3.Select(arr, r) == ty.null, z3.Select(al, z3.Select(arr, r)))),
                                 patterns=[z3.Select(arr, r)]))
         if key[0] == "list" and ty.is_reflike(key[1]):
             so = seq_ops(key[1])
             r = fresh("r", ty.RefSort)
             x = fresh("x", ty.RefSort)
-            st.assume(z3.ForAll([r, x], z3.Implies(z3.And(z3.Select(al, r), so.Mem(z3.Select(arr, r), x)), z3.And(x != ty.null, z3.Select(al, x))),
+            st.assume(QForAll([r, x], z3.Implies(z3.And(z3.Select(al, r), so.Mem(z3.Select(arr, r), x)), z3.And(x != ty.null, z3.Select(al, x))),
                                 patterns=[so.Mem(z3.Select(arr, r), x)]))
 
 
@@ -204,9 +206,9 @@ def frame_formula(E: Engine, fr: Frame, st: State, key):
     now, was = E.h(st, key), E.h(fr.old, key)
     body = z3.Implies(cond, z3.Select(now, r) == z3.Select(was, r))
     try:
-        return z3.ForAll([r], body, patterns=[z3.Select(now, r)])
+        return QForAll([r], body, patterns=[z3.Select(now, r)])
     except z3.Z3Exception:
-        return z3.ForAll([r], body)
+        return QForAll([r], body)
 
 
 def loop_frame_assumption(E: Engine, st: State, fr: Frame, key, new, at_entry):
@@ -263,12 +265,12 @@ Engine.apply_contract = calls.apply_contract
 # ------------------------------------------------------------------------------- verification
 def entry_state(E: Engine, q: str, c: FnContract):
     fn = E.prog.func(q)
-    mod, _, name = q.partition(":")
+    mod, _, name = q.split("#")[0].partition(":")
     cls = name.split(".")[0] if "." in name else None
     st = State()
     a = fn.args
     pnames = [p.arg for p in a.posonlyargs + a.args + a.kwonlyargs]
-    is_static = q in E.prog.statics
+    is_static = q.split("#")[0] in E.prog.statics
     for i, p in enumerate(pnames):
         if i == 0 and cls is not None and not is_static and p == "self":
             t = ty.Ref(cls)
@@ -326,7 +328,7 @@ def verify_function(E: Engine, q: str) -> dict:
     for r in c.requires:
         st.assume(E.sev_bool(r, st, pre_frame))
     old = st.copy()
-    if q.endswith(".__init__"):
+    if q.split("#")[0].endswith(".__init__"):
         # the object under construction is not part of the pre-state: writes to it are outside the frame
         old.heap[("alloc",)] = z3.Store(E.alloc(st), st.locals["self"].z, False)
     fr.old = old
@@ -408,7 +410,7 @@ def check_frame(E, fr, c, st, old, kind):
         cond = z3.Select(old_alloc, r)
         if entries:
             cond = z3.And(cond, not_in_modset(entries, r))
-        E.oblige(fr, st, kind, keyname(key), z3.ForAll([r], z3.Implies(cond, z3.Select(now, r) == z3.Select(was, r))),
+        E.oblige(fr, st, kind, keyname(key), QForAll([r], z3.Implies(cond, z3.Select(now, r) == z3.Select(was, r))),
                  info=f"only locations in the modifies clause change ({keyname(key)})")
 
 
